@@ -67,6 +67,8 @@ def cases(tier):
                     for iset in [[w] for w in W]:
                         for ws_i in (ws, [(3, 2), (1, 2)], [(4, 3), (3, 2)]):      # also bases whose FIRST mode is non-integer valued
                             yield {'d': d, 'm': m, 'ws': [list(w) for w in ws_i], 'iset': iset, 'var': 'hosvd', 'thr': 1e-12, 'mr': 'inf', 'fl': [0, 0], 'dt': 'int'}
+                            if len(iset[0][0]) >= 2:
+                                yield {'d': d, 'm': m, 'ws': [list(w) for w in ws_i], 'iset': iset, 'var': 'hocur', 'dt': 'int'}
 
 
 def run_case(case, seed):
@@ -113,6 +115,8 @@ def run_case(case, seed):
         HOC['ranks'] = [1] + [1000] * len(basis) + [1]          # per-bond list (an input: must come back unchanged)
     ranks_given = list(HOC['ranks']) if isinstance(HOC['ranks'], list) else HOC['ranks']
     batched = len(iset) > 1
+    # cross approximation of integer data with entries up to ~50 (Gaussians down to 1e-300 next to order-one values): one digit more
+    ctol = 1e-6 if (var == 'hocur' and case.get('dt') == 'int') else 1e-7
     with r.op(key + ':call'):
         out = call(xi if batched else xi[0], yi if batched else yi[0])
         ev, et = out[0], out[1]
@@ -165,7 +169,7 @@ def run_case(case, seed):
                 ambiguous = any(abs(dist[i_] - dist[j_]) < 1e-6 and abs(np.real(wnz[i_]) - np.real(wnz[j_])) > 1e-9
                                 for i_ in range(k) for j_ in range(i_ + 1, k))
                 if not ambiguous:
-                    r.close(key + ':eigenvalues', lam, want, 1e-7 * max(1.0, sv[0] / sv[k - 1]), 'list position %d' % kpos)
+                    r.close(key + ':eigenvalues', lam, want, ctol * max(1.0, sv[0] / sv[k - 1]), 'list position %d' % kpos)
                     r.count('eigenvalue_sets_with_complex_pairs', int(np.max(np.abs(np.imag(wnz))) > 1e-9))
                 else:
                     r.count('eigenvalue_order_ambiguous')
@@ -175,7 +179,7 @@ def run_case(case, seed):
                     if abs(np.imag(wnz[jj])) < 1e-10 and abs(np.real(wnz[jj]) - lam[j]) < 1e-6:
                         v = Xi[:, j]
                         res = np.linalg.norm(Kt @ v - lam[j] * v) / max(1e-300, np.linalg.norm(v))
-                        r.true(key + ':eigen-equation', res <= 1e-7 * max(1.0, sv[0] / sv[k - 1]), 'pair %d residual %.3e' % (j, res))
+                        r.true(key + ':eigen-equation', res <= ctol * max(1.0, sv[0] / sv[k - 1]), 'pair %d residual %.3e' % (j, res))
     r.true(key + ':data-unchanged', np.array_equal(x, x0))
     r.true(key + ':max_rank-argument-unchanged', HOC['ranks'] == ranks_given, 'max_rank list modified: %s -> %s' % (ranks_given, HOC['ranks']))
     return r
